@@ -60,7 +60,11 @@ def sensitivity(ids):
         out = subprocess.run([os.path.join(HERE, "tools", "try_mutant.sh"), patch, os.environ.get("VERIF_SENS_BUDGET", "25")] + meta.get("caught_by", [meta["property"]]),
                              capture_output=True, text=True, timeout=3600)
         caught = "VIOLATION property=" in out.stdout
-        print("%s: %s" % (sid, "caught" if caught else "MISSED"))
+        replay_ok = "REPLAY-OK" in out.stdout and "REPLAY-DIFFERS" not in out.stdout
+        print("%s: %s" % (sid, ("caught, replay reproduces exactly" if replay_ok else "caught, REPLAY DIFFERS") if caught else "MISSED"), flush=True)
+        if caught and not replay_ok:
+            missed += 1
+            print(out.stdout[-900:])
         if not caught:
             missed += 1
             print(out.stdout[-600:])
